@@ -19,8 +19,9 @@
 (* All instances of one trace may live in different processes, be created  *)
 (* in any order and hold different lists: the replacement of n under salt  *)
 (* s is learned once (asMap[s][n]) and every later observation must agree. *)
-(* salt is an opaque string (hex of the bytes): TLC only tests equality,   *)
-(* so nothing is demanded across different salts.                          *)
+(* salt is an opaque string (api level + hex of the bytes): TLC only tests *)
+(* equality, so nothing is demanded across different salts, nor between    *)
+(* the salt given to FileAnonymizer and the one given to the class.        *)
 (*                                                                         *)
 (* Verdicts are total: every event is consumed; a rejected event prints    *)
 (* <<"FAIL", tid, line-in-file, clause>> (clause = name of the first       *)
